@@ -12,6 +12,7 @@ A description is a dict:
   rec = {"t": time_ns, "type": 0|1|2|3, "depth": d, "addr": absolute_addr_or_event_id,
          "more": 0|1, "payload": bytes}      (payload already in on-disk form, see encode_args)
   optional: "cpuinfo": "Intel ..."  adds the cpuinfo lines (readers derive the architecture from them)
+            "pattern_type": "regex"  adds the pattern_type line (readers match argspec names with it)
 """
 import os
 import struct
@@ -105,6 +106,10 @@ def write(desc, d, with_cmdline=True, argspec=None, extra_info=None):
         lines.append(("argspec:lines=%d" % 2).encode())
         lines.append(("argspec:%s" % argspec.get("argspec", "")).encode())
         lines.append(("retspec:%s" % argspec.get("retspec", "")).encode())
+    if desc.get("pattern_type"):
+        # how the readers match the names in the argspec lines ("regex": a plain name is still an exact match)
+        info_mask |= INFO_PATTERN_TYPE
+        lines.append(("pattern_type:%s" % desc["pattern_type"]).encode())
     # info lines must follow the bit order of the mask: EXE_NAME, EXIT_STATUS, CMDLINE, TASKINFO, ARG_SPEC
     hdr = MAGIC + struct.pack("<IHBBQQHHI", 4, 40, 1, 2, feat, info_mask, desc.get("max_stack", 1024), 0, 0)
     with open(os.path.join(d, "info"), "wb") as f:
